@@ -213,7 +213,8 @@ mod non_wasm {
 
     // Global cache for compiled schema validators, this allows us to reuse the compiled
     // schema across multiple calls to the function, which is important for performance.
-    static SCHEMA_CACHE: LazyLock<RwLock<HashMap<PathBuf, Arc<jsonschema::Validator>>>> =
+    // The compiled validator depends on `ignore_unknown_formats`, so it is part of the cache key.
+    static SCHEMA_CACHE: LazyLock<RwLock<HashMap<(PathBuf, bool), Arc<jsonschema::Validator>>>> =
         LazyLock::new(|| RwLock::new(HashMap::new()));
 
     #[derive(Debug, Clone)]
@@ -302,10 +303,12 @@ mod non_wasm {
         schema_path: &Path,
         ignore_unknown_formats: bool,
     ) -> Result<Arc<jsonschema::Validator>, String> {
+        let key = (schema_path.to_path_buf(), ignore_unknown_formats);
+
         // Try read lock first
         {
             let cache = SCHEMA_CACHE.read().unwrap();
-            if let Some(schema) = cache.get(schema_path) {
+            if let Some(schema) = cache.get(&key) {
                 return Ok(schema.clone());
             }
         }
@@ -317,7 +320,7 @@ mod non_wasm {
         let mut cache = SCHEMA_CACHE.write().unwrap();
 
         // Double-check pattern
-        if let Some(schema) = cache.get(schema_path) {
+        if let Some(schema) = cache.get(&key) {
             return Ok(schema.clone());
         }
 
@@ -332,7 +335,7 @@ mod non_wasm {
             .map_err(|e| format!("Failed to compile schema: {e}"))?;
 
         let compiled_schema = Arc::new(compiled_schema);
-        cache.insert(schema_path.to_path_buf(), compiled_schema.clone());
+        cache.insert(key, compiled_schema.clone());
         Ok(compiled_schema)
     }
 }
